@@ -203,6 +203,12 @@ func (in *inst) dynamicCall(n *vnode, st *State, f Val, sig *types.Signature, ar
 func (in *inst) static(n *vnode, st *State, f *ssa.Function, args []Val, bindings []Val, pos token.Pos) Val {
 	fv := in.fv
 	sig := f.Signature
+	if st.ghost == nil {
+		st.ghost = map[string]Val{}
+	}
+	for i, a := range args {
+		st.ghost[fmt.Sprintf("arg:%s.%d", f.Name(), i)] = a
+	}
 	inModule := f.Blocks != nil && ((f.Pkg != nil && strings.HasPrefix(f.Pkg.Pkg.Path(), modPath)) || f.Parent() != nil || f.Synthetic != "")
 	if ct := fv.eng.contracts[f]; ct != nil && !ct.Synth {
 		env := map[string]Val{}
@@ -1273,6 +1279,47 @@ func (in *inst) baseEnv(st *State) *cenv {
 			}
 			cand = append(cand, v)
 		}
+		if len(cand) > 1 && in.at != nil {
+			// several definitions dominate the evaluation point: the source variable
+			// denotes the latest one (the one dominated by all the others)
+			var best ssa.Value
+			for _, v := range cand {
+				vi, ok := v.(ssa.Instruction)
+				if !ok {
+					continue
+				}
+				latest := true
+				for _, w := range cand {
+					wi, ok2 := w.(ssa.Instruction)
+					if w == v || !ok2 {
+						continue
+					}
+					if wi.Block() == vi.Block() {
+						// same block: order of instructions
+						iv, iw := -1, -1
+						for k, ins := range vi.Block().Instrs {
+							if ins == vi {
+								iv = k
+							}
+							if ins == wi {
+								iw = k
+							}
+						}
+						if iw > iv {
+							latest = false
+						}
+					} else if !wi.Block().Dominates(vi.Block()) {
+						latest = false
+					}
+				}
+				if latest {
+					best = v
+				}
+			}
+			if best != nil {
+				cand = []ssa.Value{best}
+			}
+		}
 		if len(cand) == 1 {
 			if v, ok := in.vals[cand[0]]; ok {
 				ce.vars[name] = v
@@ -1325,6 +1372,10 @@ func (in *inst) loopRegion(key string, lp *loopInfo) func(string) string {
 	return func(l string) string {
 		fresh := "(>= (root " + l + ") " + fv.allocEntry + ")"
 		if lfr != nil {
+			// with a loop-level assigns clause "fresh" means allocated since the loop was entered
+			if a, ok := in.loopAllocPre[lp]; ok {
+				fresh = "(>= (root " + l + ") " + a + ")"
+			}
 			if r := lfr[key]; r != nil {
 				return or(fresh, r.pred(l))
 			}
@@ -1356,6 +1407,7 @@ func (in *inst) cutHeader(n *vnode, l *loopInfo, edges []*vedge, conds []string)
 	}
 	// inv-init
 	ce := in.headerEnv(n, l, pin, st)
+	ce.pre = st
 	for _, iv := range ls.Invariants {
 		t := ce.evalGoal(iv.Expr)
 		fv.oblige(fmt.Sprintf("%s#inv-init:%s@loop%d", funcKey(in.fn), iv.Name, l.ord), "inv-init", in.propsFor(iv), st.reach, t, iv.Expr, l.header.Instrs[0].Pos())
@@ -1378,6 +1430,10 @@ func (in *inst) cutHeader(n *vnode, l *loopInfo, edges []*vedge, conds []string)
 	}
 	// havoc
 	pre := st.clone()
+	if in.loopAllocPre == nil {
+		in.loopAllocPre = map[*loopInfo]string{}
+	}
+	in.loopAllocPre[l] = st.alloc
 	keys, anything := in.loopWrites(l)
 	var ks []string
 	for k := range keys {
@@ -1413,6 +1469,7 @@ func (in *inst) cutHeader(n *vnode, l *loopInfo, edges []*vedge, conds []string)
 		fv.assume(st.reach, t)
 	}
 	ce2 := in.headerEnv(n, l, pnew, st)
+	ce2.pre = pre
 	for _, iv := range ls.Invariants {
 		fv.assume(st.reach, ce2.evalAssume(st.reach, iv.Expr))
 	}
@@ -1456,6 +1513,7 @@ func (in *inst) invStep(n *vnode, edges []*vedge, conds []string) {
 	ce := in.headerEnv(n, l, pv, st)
 	ce.it0 = snap.st
 	ce.it0vars = snap.vars
+	ce.pre = snap.pre
 	for _, lt := range ls.Lets {
 		ce.vars[lt[0]] = snap.vars[lt[0]]
 	}
